@@ -453,6 +453,35 @@ pub fn ref_price(b: &Bank, ors: &[OracleIn], now: i64) -> Result<RefPx, PxErr> {
             // |rate_prog - l/c| <= max(l*u/(c*(c-u)), u/c) + 5u  (four truncated sf inputs, one division)
             let u = ulp();
             let rate_err = if c > &u * ri(2) { rmax(&(&l * &u * ri(5) / (&c * (&c - &u))), &(&u * ri(5) / &c)) + &u * ri(2) } else { &l / &c + one() };
+            // fail-closed boundary: the adjusted integer price / confidence fields must fit their
+            // integer types (i64 / u64); where exactly that happens is implementation defined, so
+            // the grid arithmetic is reproduced with big integers for this decision only
+            {
+                use num_bigint::BigInt;
+                let sfb = |o: usize| BigInt::from(u128_at(o) >> 12);
+                let liq_bits = (BigInt::from(u64_at(std::mem::offset_of!(R, available_amount))) << 48usize) + sfb(std::mem::offset_of!(R, borrowed_amount_sf))
+                    - sfb(std::mem::offset_of!(R, accumulated_protocol_fees_sf))
+                    - sfb(std::mem::offset_of!(R, accumulated_referrer_fees_sf))
+                    - sfb(std::mem::offset_of!(R, pending_referrer_fees_sf));
+                let p10 = BigInt::from(10u8).pow(dec as u32);
+                let lp = &liq_bits / &p10;
+                let cp = (BigInt::from(u64_at(std::mem::offset_of!(R, mint_total_supply))) << 48usize) / &p10;
+                if cp > BigInt::from(0) {
+                    let ratio_bits: BigInt = (lp << 48usize) / cp;
+                    if let Some((_, price, conf, _, _, ema, ema_conf)) = pyth_decode(ors[0].data) {
+                        let fits = |raw: BigInt, lim_bits: u32| -> bool {
+                            let prod: BigInt = (raw * &ratio_bits) >> 48usize;
+                            prod < (BigInt::from(1) << lim_bits as usize) && prod < (BigInt::from(1) << 79usize)
+                        };
+                        if price < 0 || ema < 0 {
+                            return Err(PxErr::Unsupported);
+                        }
+                        if !fits(BigInt::from(price), 63) || !fits(BigInt::from(ema), 63) || !fits(BigInt::from(conf), 64) || !fits(BigInt::from(ema_conf), 64) {
+                            return Err(PxErr::Unsupported);
+                        }
+                    }
+                }
+            }
             pyth_px_x(&ors[0], &cfg.oracle_keys[0], now, max_age(false), &max_conf, Some((&liq, &col)), true, &rate_err)
         }
         _ => Err(PxErr::Unsupported),
